@@ -191,7 +191,7 @@ private def lossMi : Reader String := do
   let lg := fun a => (lookupNear lt tol a).getD 0
   match miPrep x y m B with
   | .error e => pure e
-  | .ok (N, S, xm, ym) =>
+  | .ok (N, S, xm, ym, mk) =>
     let bins := List.range B
     let expArgs := (List.range (N * S)).flatMap (fun i => bins.flatMap (fun b =>
       [-((xm i - cen b) * (xm i - cen b) / tss), -((ym i - cen b) * (ym i - cen b) / tss)]))
@@ -199,9 +199,10 @@ private def lossMi : Reader String := do
     let win := parzen ex tss nrm
     let logArgs := (List.range N).flatMap (fun n =>
       let p := miProbs win tiny B S cen (fun s => xm (n * S + s)) (fun s => ym (n * S + s))
+        (mk.map (fun m s => m (n * S + s)))
       bins.flatMap (fun b => [p.2.1 b + tiny, p.2.2 b + tiny] ++ bins.map (fun b' => p.1 b b' + tiny)))
     if logArgs.any (fun a => (lookupNear lt tol a).isNone) then pure "err:table:log" else
-    pure (fmtRat (miLossCore win lg tiny normalized N B S cen xm ym))
+    pure (fmtRat (miLossCore win lg tiny normalized N B S cen xm ym mk))
 
 /-- `loss.reduce red n v1 … vn optMask(n values)` — reduce_loss alone. -/
 private def lossReduce : Reader String := do
